@@ -520,3 +520,21 @@ def c13(ctx):
         vlib.write_evidence(ctx, cov)
         raise Inconclusive("too many sequences did not stabilise: %s" % summ.get("notes"))
     return vlib.finish(ctx, cov)
+
+
+def c10_tags(head, evs, line, msg):
+    return {"msg": msg, "lru_samples_1": "LRUSamples=1" in head.get("cfg", "")}
+
+
+@register("C10")
+def c10(ctx):
+    quick = ctx.tier == "quick"
+    ctx.assumptions += ["the bound is checked for the primary fragments of the partitions a member owns, on stable membership, R = 1",
+                        "an idle key that did not disappear within 8 s after its window is reported (the background sampler visits a random partition every 100 ms)",
+                        "entries have equal size (8-byte keys, 40-byte values) for the MaxInuse bound"]
+    rule = ("MaxKeys in {1, 3, P-1, P, 2P, 10P} x LRUSamples in {1,2,5} and MaxInuse configurations for P in {1,7}, 1-2 members; 60-120 Puts per configuration with "
+            "uniform, single-partition and overwrite-heavy key patterns; after every Put its result, an immediate Get and the Length/Inuse of every primary fragment "
+            "are logged; idle eviction: 12 keys kept warm by reads/writes every 100-200 ms, 12 left alone, window 400 ms; non-trivial = at least one eviction happened")
+    design = [("EvictionMC", "Eviction.cfg", {})]
+    return det_run(ctx, "reg", "TestC10", "c10.ndjson", "c10.summary.json", "EvictionTrace", "EvictionTrace.cfg",
+                   {"VERIF_ROUNDS": 1 if quick else 8}, design, rule, "eviction bounds", tags_of=c10_tags)
